@@ -321,7 +321,7 @@ def _dispatch(item):
 
 
 def run(ctx):
-    ctx.level = "proof"
+    ctx.level = "other"
     install_shims()
     items = [("law", n) for n in _laws()] + [("eq", "ZSqrtTwo"), ("eq", "ZOmega"), ("sqrt", None), ("normalize", None)]
     # the tail of _solve_diophantine with its factoring subroutines stubbed by arbitrary ring elements ("dioph") was tried in the thorough tier
